@@ -100,11 +100,12 @@ Proof.
   - intros nd base H. destruct (gn_id nd =? 1); [apply bump_commit_init_snap; [lia|exact H]|exact H].
 Qed.
 
-(* server 1 is elected, tells server 2 "commit 2" with an empty request; server 2 applies entries
+(* server 1 is elected, tells server 2 "commit 2" with an empty request whose previous entry is entry 2
+   (the commit index follows the last index the request vouches for); server 2 applies entries
    1..2 and takes a snapshot: its snapshot store is no longer empty and its snapshot index is 2 *)
 Definition snap_labels : list llabel :=
   [LElect (GTimeout 1); LElect (GVoteReq 1 2 0 []); LElect (GVoteResp 1 2);
-   LSend 1 2 1 0; LDeliver 0 0 []; LElect (GInput 2 NSnapshot 0 [])].
+   LSend 1 2 3 2; LDeliver 0 0 []; LElect (GInput 2 NSnapshot 0 [])].
 
 Definition took_snapshot (g : lgstate) (i : N) : bool :=
   match find_node (g_nodes (lg_g g)) i with
